@@ -26,6 +26,12 @@ func init() {
 			ruleXZReaderChecks(c, r, "lib:")
 			// corrupt .lzma input has no check value: the decoder itself must refuse impossible distances
 			ruleApplyOps(c, r, "lib:")
+			{
+				// what gxz puts in place of the input must decode: the LZMA2 writer's chunk discipline and state snapshots
+				ct := getChunkTables(c, r, "lib:")
+				ruleWriter2(c, r, ct, "lib:")
+				ruleDeepCopy(c, r, "lib:")
+			}
 			ruleDecoderBounds(c, r, "lib:")
 		},
 	})
@@ -57,6 +63,11 @@ func init() {
 			// files written by gxz announce a dictionary size that covers the encoder's window
 			ruleDictCapEncode(c, r, "lib:")
 			ruleCheckEncoding(c, r, "lib:")
+			{
+				ct := getChunkTables(c, r, "lib:")
+				ruleChunkHeaderCodec(c, r, ct, "lib:")
+			}
+			ruleLcLp(c, r, "lib:")
 			ruleDeferResult(c, r, "")
 			ruleReaderWindow(c, r, "")
 			ruleGxzDataSafety(c, r, "")
